@@ -254,7 +254,9 @@ def variant_sources(body, l, depth=0):
     for d in ds:
         if d[3] == "rv":
             rv = d[4]
-            if rv["k"] == "agg" and rv.get("ak") == "adt" and rv.get("variant") in ("Ok", "Err", "Some", "None", "Continue", "Break"):
+            if rv["k"] == "agg" and rv.get("ak") == "adt" and rv.get("variant") and \
+                    (rv["variant"] in ("Ok", "Err", "Some", "None", "Continue", "Break") or rv["variant"] != canon(rv.get("adt") or "").split("::")[-1].split("<")[0]):
+                # a variant of an enum (a struct literal carries its own name as `variant`)
                 out.append((rv["variant"], d[0]))
             elif rv["k"] == "use" and rv["op"]["k"] in ("copy", "move") and not [p for p in rv["op"]["pl"]["p"] if p["k"] != "deref"]:
                 r = variant_sources(body, rv["op"]["pl"]["l"], depth + 1)
